@@ -58,8 +58,8 @@ func C20(tier string) {
 	step := 0.1
 	dy := []float64{-1, 0, 1, 3}
 	if tier == "thorough" {
-		step = 0.05
-		dy = []float64{-4, -1, -0.5, 0, 0.25, 1, 3}
+		step = 0.04
+		dy = []float64{-4, -2, -1, -0.5, 0, 0.25, 1, 3, 4}
 	}
 	nd := []float64{-0.7, 0.1, 1.0 / 3, 2.3}
 	r.Rule(fmt.Sprintf("primaries: all unordered triples of chromaticity lattice points (step %.2f, x,y in [0.05,0.80], x+y<=1) with triangle area >= 0.01 x every lattice white strictly inside, plus %d published RGB spaces in all 6 primary orders; algebra: every matrix with entries in %v (9 entries) and in the non-dyadic alphabet %v with |det| >= 1e-3: Inverse, Transpose, MulV x 4 vectors, MulM both ways x 14 partner matrices against row-major float64 / Gauss-Jordan; singular: every matrix from both alphabets with a repeated or zero column must panic; distinct = configurations / matrices passing the non-degeneracy filter", step, len(refs.PublishedSpaces), dy, nd))
